@@ -55,6 +55,7 @@ import (
 	"google.golang.org/grpc"
 	"google.golang.org/grpc/codes"
 	"google.golang.org/grpc/status"
+	"google.golang.org/protobuf/proto"
 	"rsc.io/binaryregexp"
 )
 
@@ -196,6 +197,9 @@ func (s *server) CreateTable(ctx context.Context, req *btapb.CreateTableRequest)
 		req.Table = &btapb.Table{}
 	}
 	req.Table.Name = tbl
+	// The response must not share the column family map with the table: it is serialized after this handler has
+	// returned, when ModifyColumnFamilies may already be changing the table's definition.
+	created := proto.Clone(req.Table).(*btapb.Table)
 	rows := s.storage.Create(req.Table)
 	s.tables[tbl] = newTable(req.Table, rows)
 
@@ -203,8 +207,8 @@ func (s *server) CreateTable(ctx context.Context, req *btapb.CreateTableRequest)
 
 	ct := &btapb.Table{
 		Name:           tbl,
-		ColumnFamilies: req.GetTable().GetColumnFamilies(),
-		Granularity:    req.GetTable().GetGranularity(),
+		ColumnFamilies: created.GetColumnFamilies(),
+		Granularity:    created.GetGranularity(),
 	}
 	if ct.Granularity == 0 {
 		ct.Granularity = btapb.Table_MILLIS
@@ -235,9 +239,11 @@ func (s *server) GetTable(ctx context.Context, req *btapb.GetTableRequest) (*bta
 		return nil, status.Errorf(codes.NotFound, "table %q not found", req.Name)
 	}
 
-	s.mu.Lock()
-	defer s.mu.Unlock()
-	return tbl.def, nil
+	// The definition is modified by ModifyColumnFamilies under the table lock, and the response is serialized after
+	// this handler has returned: hand out a private copy.
+	tbl.mu.RLock()
+	defer tbl.mu.RUnlock()
+	return proto.Clone(tbl.def).(*btapb.Table), nil
 }
 
 func (s *server) DeleteTable(ctx context.Context, req *btapb.DeleteTableRequest) (*emptypb.Empty, error) {
@@ -360,7 +366,8 @@ func (s *server) ModifyColumnFamilies(ctx context.Context, req *btapb.ModifyColu
 			tbl.rows.Delete(key)
 		}
 	}
-	return tbl.def, nil
+	// A private copy: the response is serialized after the table lock has been released.
+	return proto.Clone(tbl.def).(*btapb.Table), nil
 }
 
 func (s *server) DropRowRange(ctx context.Context, req *btapb.DropRowRangeRequest) (*emptypb.Empty, error) {
@@ -402,7 +409,9 @@ func (s *server) DropRowRange(ctx context.Context, req *btapb.DropRowRangeReques
 
 func (s *server) GenerateConsistencyToken(ctx context.Context, req *btapb.GenerateConsistencyTokenRequest) (*btapb.GenerateConsistencyTokenResponse, error) {
 	// Check that the table exists.
+	s.mu.Lock()
 	_, ok := s.tables[req.Name]
+	s.mu.Unlock()
 	if !ok {
 		return nil, status.Errorf(codes.NotFound, "table %q not found", req.Name)
 	}
@@ -414,7 +423,9 @@ func (s *server) GenerateConsistencyToken(ctx context.Context, req *btapb.Genera
 
 func (s *server) CheckConsistency(ctx context.Context, req *btapb.CheckConsistencyRequest) (*btapb.CheckConsistencyResponse, error) {
 	// Check that the table exists.
+	s.mu.Lock()
 	_, ok := s.tables[req.Name]
+	s.mu.Unlock()
 	if !ok {
 		return nil, status.Errorf(codes.NotFound, "table %q not found", req.Name)
 	}
